@@ -103,6 +103,12 @@ def _dictgen_shared(n):
         yield d
 
 
+def _dictgen_sparse(n):
+    # records that lack fields, down to the empty record {} (a row of `missing` only), also in the middle of the stream
+    for i in range(n):
+        yield [{'a': i, 'b': str(i)}, {}, {'b': 'only-b'}, {}, {'a': 0, 'b': ''}][i % 5]
+
+
 EXTRA = {
     'x:fromcsv': lambda s: petl.fromcsv(_files['csv']),
     'x:fromcsv-gz': lambda s: petl.fromcsv(_files['csvgz']),
@@ -129,6 +135,8 @@ EXTRA = {
     'x:fromdicts-list': lambda s: petl.fromdicts(list(_dictgen(len(s) - 1))),
     'x:fromdicts-generator': lambda s: petl.fromdicts(_dictgen(len(s) - 1), header=['a', 'b']),
     'x:fromdicts-generator-shared-cells': lambda s: petl.fromdicts(_dictgen_shared(len(s) - 1), header=['a', 'c', 'd', 't'], missing='n/a'),
+    'x:fromdicts-generator-sparse': lambda s: petl.fromdicts(_dictgen_sparse(len(s) + 1), header=['a', 'b'], missing='-'),
+    'x:fromdicts-list-sparse': lambda s: petl.fromdicts(list(_dictgen_sparse(len(s) + 1)), header=['a', 'b']),
     'x:fromdicts-generator-sample2': lambda s: petl.fromdicts(_dictgen(len(s) - 1), sample=2),
     'x:fromcolumns': lambda s: petl.fromcolumns([[1, 2, 3], ['a', 'b']]),
     'x:randomtable': lambda s: petl.randomtable(2, len(s) - 1, seed=3),
